@@ -252,6 +252,49 @@ Proof.
   rewrite andb_false_r. reflexivity.
 Qed.
 
+(* CONSEQUENCE (not an unfolding): a vnacal_new_t without frequency points accepts a standard naming ANY visible
+   scalar / vector / unknown handles whatever frequency ranges they cover - also after set_frequency_vector,
+   whatever start value it was given - and also handles it already holds; through the specification
+   [acceptable] and CalTabWalks.accepted_standard_l (validation pass + registration of every cell) *)
+Require Import LV.CalTab.CalTabWalks.
+Lemma zero_points_visible_acceptable : forall t v h n p, vn_nf v = 0 ->
+  get_param t h = Some (n, p) -> (forall o sv, p_kind p <> KCorrelated o sv) -> acceptable t v h.
+Proof.
+  intros t v h n p Z G NC. destruct (get_param_some _ _ _ _ G) as (Sn & Dn & En & Hh). subst n.
+  apply acc_visible with p; auto.
+  - apply zero_points_in_range. exact Z.
+  - intros o sv K. exfalso. apply (NC o sv K).
+Qed.
+
+Lemma zero_points_standard_added : forall s id v hs ms,
+  Inv s -> st_freed s = false -> get_new s id = Some v -> vn_nf v = 0 ->
+  (forall h, In h hs -> ((0 <= h)%Z /\ In (Z.to_nat h) (vn_params v)) \/
+                        exists n p, get_param (st_pt s) h = Some (n, p) /\ forall o sv, p_kind p <> KCorrelated o sv) ->
+  exists s' v', step s (OAddStd id hs ms) = (s', ok_int 0) /\ get_new s' id = Some v' /\
+                vn_meas v' = vn_meas v ++ [mkMeas (map Z.to_nat hs) ms].
+Proof.
+  intros s id v hs ms HI Fr G Z H.
+  destruct (accepted_standard_l s id v hs ms HI Fr G) as (s' & v' & E & G' & M & _).
+  - intros h Hh. destruct (H h Hh) as [(H0 & H1)|(n & p & Gp & NC)].
+    + apply acc_held; assumption.
+    + apply (zero_points_visible_acceptable _ _ _ n p Z Gp NC).
+  - exists s', v'. auto.
+Qed.
+
+(* the calibration of a zero-point vnacal_new_t has no fmin / fmax: both getters answer HUGE_VAL / EINVAL *)
+Lemma zero_points_calibration_no_range : forall s id v b s' out,
+  st_freed s = false -> get_new s id = Some v -> vn_nf v = 0 -> vn_fvalid v = true ->
+  step s (OSolve id b) = (s', out) ->
+  exists v' c, get_new s' id = Some v' /\ vn_cal v' = Some c /\ cal_frange c = None.
+Proof.
+  intros s id v b s' out Fr G Z V E. pose proof (get_new_lt _ _ _ G) as Lt.
+  unfold step, step_gen in E. rewrite Fr, G, V, Z in E. cbn [negb] in E. rewrite andb_false_r in E.
+  inversion E; subst; clear E.
+  eexists (mkVN _ _ _ _ _ _ _ _ (Some _)), _. split; [|split; [reflexivity|]].
+  - unfold get_new, with_new. cbn [st_news]. apply nth_upd_eq. exact Lt.
+  - reflexivity.
+Qed.
+
 (* a parameter that does not cover ANY range of a one-point vnacal_new_t is accepted by a zero-point one,
    before and after set_frequency_vector with a negative start; the solve succeeds without a standard *)
 Definition zero_script : list op :=
@@ -260,5 +303,16 @@ Definition zero_script : list op :=
 Example zero_example :
   map o_ret (snd (run st_initial zero_script))
   = [RInt 3; RPtr true; RInt 0; RInt 0; RInt 0; RInt 0; RCal 1 0 1 1 0 (-5) (-6)] /\
-  exists v, get_new (run_state (firstn 2 zero_script)) 0 = Some v /\ vn_nf v = 0 /\ vn_fvalid v = false.
-Proof. vm_compute. split; [reflexivity|]. eexists. repeat split. Qed.
+  (* after set_frequency_vector: the hypotheses of zero_points_standard_added / _calibration_no_range hold *)
+  (let s := run_state (firstn 3 zero_script) in
+   Inv s /\ st_freed s = false /\
+   exists v, get_new s 0 = Some v /\ vn_nf v = 0 /\ vn_fvalid v = true /\ vn_f0 v = (-5)%Z /\
+             exists n p, get_param (st_pt s) 3 = Some (n, p) /\ p_kind p = KVector [5; 6]%Z [(10, 0); (20, 0)]%Z) /\
+  (* the calibration that was added has no frequency range *)
+  (exists c, nth 0 (st_cals (run_state zero_script)) None = Some c /\ c_nf c = 0%Z /\ cal_frange c = None).
+Proof.
+  split; [vm_compute; reflexivity|]. split.
+  - split; [apply (proj1 (run_inv _ st_initial inv_initial))|]. vm_compute. split; [reflexivity|].
+    eexists. repeat split. eexists _, _. split; reflexivity.
+  - vm_compute. eexists. repeat split.
+Qed.
